@@ -137,28 +137,37 @@ def run_engine(ctx):
             fh.write(json.dumps({"prog": p}) + "\n")
     res["scenarios"] = nscen
 
-    # 3. real code
+    # 3. real code.  Traces can be large (thorough tier: millions of records), so they are never held in
+    # memory: they are streamed line by line (statistics, chunking, comparison) and re-scanned for the few
+    # records a failure report needs.
+    def stream(path):
+        with open(path) as fh:
+            for line in fh:
+                if line.strip():
+                    yield json.loads(line)
+
+    def finished(path):
+        try:
+            with open(path, "rb") as fh:
+                fh.seek(0, 2)
+                size = fh.tell()
+                fh.seek(max(0, size - 4096))
+                tail = fh.read().decode("utf-8", "replace").strip().splitlines()
+            return bool(tail) and tail[-1].startswith('{"k":"end"')
+        except OSError:
+            return False
+
     t0 = time.time()
     trace = os.path.join(ctx.scratch, "irctrace.ndjson")
     ov = ctx.overlay(overlay_map())
-    rc, out = ctx.go_test(".", ov, "^TestVerifIRC$", timeout=1500, env={
+    rc, out = ctx.go_test(".", ov, "^TestVerifIRC$", timeout=3000, env={
         "VERIF_IRC_OUT": trace, "VERIF_IRC_IN": prog_file, "VERIF_IRC_GEN": gen, "VERIF_IRC_LEN": glen,
         "VERIF_IRC_K": k, "VERIF_IRC_SNAP": 1, "VERIF_IRC_FANOUT": FANOUT[ctx.tier]})
     if rc != 0 or not os.path.exists(trace):
         raise vlib.Inconclusive("IRC harness failed (rc=%s):\n%s" % (rc, out[-4000:]))
-    res["harness_wall_s"] = round(time.time() - t0, 1)
-    recs = vlib.read_ndjson(trace)
-    if not recs or recs[-1]["k"] != "end":
+    if not finished(trace):
         raise vlib.Inconclusive("IRC harness did not finish its trace:\n%s" % out[-2000:])
-    steps = [x for x in recs if x["k"] in ("step", "snap")]
-    res["snapshot_round_trips_of_traced_replica"] = len([x for x in recs if x["k"] == "snap"])
-    res["histories"] = len([x for x in recs if x["k"] == "reset"])
-    res["steps"] = len(steps)
-    res["steps_sup"] = len([x for x in steps if x["e"]["sup"]])
-    res["cmds"] = {}
-    for x in steps:
-        key = x["e"]["t"] if x["e"]["t"] != "line" else ("S:" if x["e"].get("haspfx") else "") + x["e"].get("cmd", "")
-        res["cmds"][key] = res["cmds"].get(key, 0) + 1
+    res["harness_wall_s"] = round(time.time() - t0, 1)
 
     # 3a. wall-clock independence (C01): the same histories in a child process whose clock is shifted.
     # The standard library's time.Now is replaced (go -overlay on GOROOT/src/time/time.go) by a copy that adds
@@ -211,170 +220,230 @@ func Now() Time {
     # both runs use timestamps anchored at the real time (TSBASE), so that code which wrongly reads the wall
     # clock sees small distances in the reference run and large ones in the shifted run
     tsbase = int(time.time())
+    sgen = gen if ctx.tier == "quick" else max(gen // 3, 1)
 
     def shifted_run(off):
         strace = os.path.join(ctx.scratch, "irctrace-shift%d.ndjson" % off)
-        rc, out = ctx.go_test(".", ov_shift, "^TestVerifIRC$", timeout=1500, env={
-            "VERIF_IRC_OUT": strace, "VERIF_IRC_IN": prog_file, "VERIF_IRC_GEN": gen, "VERIF_IRC_LEN": glen,
+        rc, out = ctx.go_test(".", ov_shift, "^TestVerifIRC$", timeout=3000, env={
+            "VERIF_IRC_OUT": strace, "VERIF_IRC_IN": prog_file, "VERIF_IRC_GEN": sgen, "VERIF_IRC_LEN": glen,
             "VERIF_IRC_K": 1, "VERIF_IRC_SNAP": 1, "VERIF_IRC_FANOUT": 0, "VERIF_TIME_OFFSET_S": off,
             "VERIF_IRC_TSBASE": tsbase})
-        if rc != 0 or not os.path.exists(strace):
+        if rc != 0 or not os.path.exists(strace) or not finished(strace):
             raise vlib.Inconclusive("clock-shifted IRC harness failed (rc=%s):\n%s" % (rc, out[-3000:]))
-        srecs = vlib.read_ndjson(strace)
-        if not srecs or srecs[-1]["k"] != "end":
-            raise vlib.Inconclusive("clock-shifted IRC harness did not finish its trace")
-        return srecs
+        return strace
 
-    ref = shifted_run(0)
-    index = {(x["k"], x["h"], x["i"]): x for x in ref if x["k"] in ("step", "snap")}
+    def steps_of(path):
+        for x in stream(path):
+            if x["k"] in ("step", "snap"):
+                yield x
+
+    def program_of(path, h, upto):
+        return [z["e"] for z in stream(path) if z["k"] == "step" and z["h"] == h and z["i"] <= upto]
+
+    ref_path = shifted_run(0)
     for off in ([4000] if ctx.tier == "quick" else [4000, -4000, 90000]):
-        srecs = shifted_run(off)
+        spath = shifted_run(off)
         res["clock_shift"]["offsets_s"].append(off)
         seen_h = set()
-        for y in srecs:
-            if y["k"] not in ("step", "snap"):
-                continue
-            x = index.get((y["k"], y["h"], y["i"]))
+        import itertools
+        for x, y in itertools.zip_longest(steps_of(ref_path), steps_of(spath)):
             res["clock_shift"]["records_compared"] += 1
-            same = x is not None and x["e"]["data"] == y["e"]["data"] and x["out"] == y["out"] and \
-                x["post"] == y["post"] and x["panic"] == y["panic"]
+            if x is None or y is None:
+                z = x or y
+                if z["h"] not in seen_h:
+                    seen_h.add(z["h"])
+                    res["fail"].append({"prop": "C01", "pred": "ShiftedClockReplicaAgrees", "h": z["h"], "i": z["i"],
+                                        "data": z["e"].get("data", ""), "cmd": z["e"].get("cmd", ""), "t": z["e"]["t"],
+                                        "server": bool(z["e"].get("haspfx")), "det": "one of the two runs ended early", "snap": "",
+                                        "snapat": 0, "lines": "", "panics": "", "view": "", "rids": "",
+                                        "program": program_of(spath if y else ref_path, z["h"], z["i"])})
+                break
+            same = (x["k"], x["h"], x["i"]) == (y["k"], y["h"], y["i"]) and x["e"]["data"] == y["e"]["data"] and \
+                x["out"] == y["out"] and x["post"] == y["post"] and x["panic"] == y["panic"]
             if not same and y["h"] not in seen_h:
                 seen_h.add(y["h"])      # the first diverging step of a history
-                what = "history missing in the reference run" if x is None else \
-                    "with the clock shifted by %+d s the step differs in %s" % (off, [f for f in ("out", "post", "panic")
-                                                                                     if x[f] != y[f]])
+                what = "with the clock shifted by %+d s the step differs in %s" % (
+                    off, [f for f in ("k", "h", "i", "out", "post", "panic") if x[f] != y[f]])
                 res["fail"].append({"prop": "C01", "pred": "ShiftedClockReplicaAgrees", "h": y["h"], "i": y["i"],
                                     "data": y["e"].get("data", ""), "cmd": y["e"].get("cmd", ""), "t": y["e"]["t"],
                                     "server": bool(y["e"].get("haspfx")), "det": what, "snap": "", "snapat": 0, "lines": "",
-                                    "panics": "", "view": "", "rids": "",
-                                    "program": [z["e"] for z in srecs if z["k"] == "step" and z["h"] == y["h"] and z["i"] <= y["i"]]})
+                                    "panics": "", "view": "", "rids": "", "program": program_of(spath, y["h"], y["i"])})
+                if (x["k"], x["h"], x["i"]) != (y["k"], y["h"], y["i"]):
+                    break       # the two traces are no longer aligned
     res["clock_shift"]["wall_s"] = round(time.time() - t0, 1)
 
     # 3b. transition cover of the bounded model, replayed on the real server
     t0 = time.time()
-    re_ = ctx.tlc("IRCMC", cfg=EDGECFG[ctx.tier], workers=1, timeout=1800, name="edges", heap="8g")
+    re_ = ctx.tlc("IRCMC", cfg=EDGECFG[ctx.tier], workers=1, timeout=3000, name="edges", heap="8g")
     if not re_.ok and not re_.invariant_violated:
         raise vlib.Inconclusive("IRCMC edge enumeration failed:\n" + re_.out[-2000:])
-    prologues, edges = {}, []
-    for item in _parse_tuple_lines(re_.out):
-        if item.startswith('<<"EDGE"'):
-            m = re.match(r'<<"EDGE", "(.*)">>$', item, re.S)
-            if m:
-                edges.append(json.loads(m.group(1).encode().decode("unicode_escape")))
-        elif item.startswith('<<"PROLOGUE"'):
-            m = re.match(r'<<"PROLOGUE", (\d+), "(.*)">>$', item, re.S)
-            if m:
-                prologues[m.group(1)] = json.loads(m.group(2).encode().decode("unicode_escape"))
-    if not edges or not prologues:
-        raise vlib.Inconclusive("no transitions printed by %s" % EDGECFG[ctx.tier])
+    prologues, nedges = {}, 0
     edge_file = os.path.join(ctx.scratch, "edges.json")
     with open(edge_file, "w") as fh:
-        json.dump({"prologues": prologues, "edges": edges}, fh)
+        fh.write('{"edges":[')
+        for item in _parse_tuple_lines(re_.out):
+            if item.startswith('<<"EDGE"'):
+                m = re.match(r'<<"EDGE", "(.*)">>$', item, re.S)
+                if m:
+                    fh.write(("," if nedges else "") + m.group(1).encode().decode("unicode_escape"))
+                    nedges += 1
+            elif item.startswith('<<"PROLOGUE"'):
+                m = re.match(r'<<"PROLOGUE", (\d+), "(.*)">>$', item, re.S)
+                if m:
+                    prologues[m.group(1)] = json.loads(m.group(2).encode().decode("unicode_escape"))
+        fh.write('],"prologues":' + json.dumps(prologues) + "}")
+    re_.out = ""
+    if not nedges or not prologues:
+        raise vlib.Inconclusive("no transitions printed by %s" % EDGECFG[ctx.tier])
     etrace = os.path.join(ctx.scratch, "edgetrace.ndjson")
-    rc, out = ctx.go_test(".", ov, "^TestVerifIRCEdges$", timeout=1500, env={"VERIF_IRC_OUT": etrace, "VERIF_IRC_EDGES": edge_file})
-    if rc != 0 or not os.path.exists(etrace):
+    rc, out = ctx.go_test(".", ov, "^TestVerifIRCEdges$", timeout=3000, env={"VERIF_IRC_OUT": etrace, "VERIF_IRC_EDGES": edge_file})
+    if rc != 0 or not os.path.exists(etrace) or not finished(etrace):
         raise vlib.Inconclusive("IRC edge harness failed (rc=%s):\n%s" % (rc, out[-4000:]))
-    erecs = vlib.read_ndjson(etrace)
-    if not erecs or erecs[-1]["k"] != "end":
-        raise vlib.Inconclusive("IRC edge harness did not finish its trace")
-    res["tlc"]["edges"] = {"cfg": EDGECFG[ctx.tier], "transitions_printed": len(edges), "wall_s": round(time.time() - t0, 1)}
-    # one combined trace: histories first, then the transition cover
-    with open(trace, "w") as fh:
-        for x in recs[:-1] + erecs:
-            fh.write(json.dumps(x, separators=(",", ":")) + "\n")
-    recs = recs[:-1] + erecs
-    steps = [x for x in recs if x["k"] in ("step", "snap")]
-    res["model_transitions_replayed"] = len(edges)
-    res["fanout_probes"] = len([x for x in recs if x["k"] == "reset" and x.get("base")])
+    res["tlc"]["edges"] = {"cfg": EDGECFG[ctx.tier], "transitions_printed": nedges, "wall_s": round(time.time() - t0, 1)}
+    res["model_transitions_replayed"] = nedges
 
-    # 4. trace validation: the trace is cut at history boundaries into chunks validated by parallel TLC runs
+    # 4. trace validation: both traces are cut at history boundaries into chunk files (one streaming pass that
+    # also gathers the statistics) which are validated by parallel TLC runs
     t0 = time.time()
-    chunks, cur = [], []
-    for x in recs:
-        if x["k"] == "end":
-            continue
-        if x["k"] == "reset" and len(cur) >= max(400, len(recs) // 12):
-            chunks.append(cur)
-            cur = []
-        cur.append(x)
-    if cur:
-        chunks.append(cur)
-    endrec = {"k": "end", "h": 0, "i": 0, "post": {}, "out": [], "lookup": []}
+    total_lines = 0
+    for path in (trace, etrace):
+        with open(path, "rb") as fh:
+            total_lines += sum(1 for _ in fh)
+    per_chunk = max(400, total_lines // (12 if ctx.tier == "quick" else 48))
+    endline = json.dumps({"k": "end", "h": 0, "i": 0, "post": {}, "out": [], "lookup": []}, separators=(",", ":")) + "\n"
+    chunk_paths, chunk_of_h, bases = [], {}, {}
+    res.update({"snapshot_round_trips_of_traced_replica": 0, "histories": 0, "steps": 0, "steps_sup": 0, "cmds": {},
+                "fanout_probes": 0})
+    cur, curlen = None, 0
+    nsteps_seen = 0
+    for path in (trace, etrace):
+        with open(path) as fh:
+            for line in fh:
+                if not line.strip():
+                    continue
+                x = json.loads(line)
+                kx = x["k"]
+                if kx == "end":
+                    continue
+                if kx == "reset":
+                    res["histories"] += 1
+                    if x.get("base"):
+                        res["fanout_probes"] += 1
+                        bases[x["h"]] = x["base"]
+                    if cur is None or curlen >= per_chunk:
+                        if cur is not None:
+                            cur.write(endline)
+                            cur.close()
+                        chunk_paths.append(os.path.join(ctx.scratch, "chunk-%d.ndjson" % len(chunk_paths)))
+                        cur, curlen = open(chunk_paths[-1], "w"), 0
+                    chunk_of_h[x["h"]] = len(chunk_paths) - 1
+                elif kx in ("step", "snap"):
+                    res["steps"] += 1
+                    nsteps_seen += 1
+                    if kx == "snap":
+                        res["snapshot_round_trips_of_traced_replica"] += 1
+                    e = x["e"]
+                    if e["sup"]:
+                        res["steps_sup"] += 1
+                    key = e["t"] if e["t"] != "line" else ("S:" if e.get("haspfx") else "") + e.get("cmd", "")
+                    res["cmds"][key] = res["cmds"].get(key, 0) + 1
+                    if nsteps_seen in (1, 2, 3, 400, 401) and kx == "step":
+                        res["samples"].append({"entry": {k2: e[k2] for k2 in ("t", "id", "sess", "ts", "data")},
+                                               "out": [{"cmd": o["cmd"], "to": o["to"], "p": o["p"]} for o in x["out"][:3]],
+                                               "post_nicks": x["post"]["nk"]})
+                cur.write(line if line.endswith("\n") else line + "\n")
+                curlen += 1
+    if cur is not None:
+        cur.write(endline)
+        cur.close()
 
     def validate(n):
-        path = os.path.join(ctx.scratch, "chunk-%d.ndjson" % n)
-        with open(path, "w") as fh:
-            for x in chunks[n] + [endrec]:
-                fh.write(json.dumps(x, separators=(",", ":")) + "\n")
-        return ctx.tlc("IRCTrace", cfg="IRCTrace.cfg", workers=1, timeout=1800, files={"irctrace.ndjson": path},
+        return ctx.tlc("IRCTrace", cfg="IRCTrace.cfg", workers=1, timeout=3000, files={"irctrace.ndjson": chunk_paths[n]},
                        deadlock=False, name="trace-%d" % n, heap="3g")
 
     import concurrent.futures
     with concurrent.futures.ThreadPoolExecutor(max_workers=int(os.environ.get("VERIF_TRACE_PAR", "8"))) as ex:
-        results = list(ex.map(validate, range(len(chunks))))
-    allout = ""
-    res["tlc"]["trace"] = {"generated": 0, "distinct": 0, "wall_s": 0, "parallel_runs": len(chunks)}
+        results = list(ex.map(validate, range(len(chunk_paths))))
+    res["tlc"]["trace"] = {"generated": 0, "distinct": 0, "wall_s": 0, "parallel_runs": len(chunk_paths)}
     res["conforming"] = 0
+    props, confs = [], []
     for rt in results:
         if "CONFORMING" not in rt.out or not rt.finished or rt.rc != 0:
             raise vlib.Inconclusive("IRCTrace did not consume its trace chunk: rc=%s\n%s" % (rt.rc, rt.out[-3000:]))
         res["tlc"]["trace"]["generated"] += rt.generated
         res["tlc"]["trace"]["distinct"] += rt.distinct
-        allout += rt.out + "\n"
+        for item in _parse_tuple_lines(rt.out):
+            m = re.match(r'<<"PROP", <<"(C\d+)", "(\w+)">>, (\d+), (\d+)>>', item)
+            if m:
+                props.append((m.group(1), m.group(2), int(m.group(3)), int(m.group(4))))
+                continue
+            m = re.match(r'<<"CONF", "([\w-]+)", (\d+), (\d+)(.*)>>$', item, re.S)
+            if m:
+                confs.append((m.group(1), int(m.group(2)), int(m.group(3)), m.group(4)[:600]))
+                continue
+            m = re.match(r'<<"CONFORMING", (\d+)>>', item)
+            if m:
+                res["conforming"] += int(m.group(1))
+        rt.out = ""
     res["tlc"]["trace"]["wall_s"] = round(time.time() - t0, 1)
 
-    class _RT:
-        out = allout
-    rt = _RT()
-    byhi = {(x["h"], x["i"]): x for x in steps if x["k"] == "step"}
-    byhi_snap = {(x["h"], x["i"]): x for x in steps if x["k"] == "snap"}
-    starts = {}
-    for idx, x in enumerate(recs):
-        if x["k"] == "reset":
-            starts[x["h"]] = idx
-
-    bases = {x["h"]: x["base"] for x in recs if x["k"] == "reset" and x.get("base")}
+    # fetch the records the failure reports need: one scan per chunk that contains a reported history (or the
+    # base history of a reported fan-out probe); at most a few hundred distinct reports are kept
+    MAXREP = 400
+    props = props[:20000]
+    wanted_h = set()
+    kept, seen_sig = [], {}
+    for pr in props:
+        # cap per (property, predicate): the report deduplicates by signature anyway
+        kk = (pr[0], pr[1])
+        seen_sig[kk] = seen_sig.get(kk, 0) + 1
+        if seen_sig[kk] <= MAXREP:
+            kept.append(pr)
+            wanted_h.add(pr[2])
+    for cf in confs[:50]:
+        wanted_h.add(cf[1])
+    for h in list(wanted_h):
+        if h in bases:
+            wanted_h.add(bases[h])
+    got = {}          # h -> list of records of that history
+    for ci in sorted({chunk_of_h[h] for h in wanted_h if h in chunk_of_h}):
+        for x in stream(chunk_paths[ci]):
+            if x.get("h") in wanted_h and x["k"] != "end":
+                got.setdefault(x["h"], []).append(x)
 
     def history_upto(h, i):
-        pre = []
-        if h in bases:       # fan-out probe: the probed history, then the probe entry
-            pre = history_upto(bases[h], 10 ** 9)
-        s = starts[h]
-        return pre + [y["e"] for y in recs[s + 1:] if y["k"] == "step" and y["h"] == h and y["i"] <= i]
+        pre = history_upto(bases[h], 10 ** 9) if h in bases else []
+        return pre + [y["e"] for y in got.get(h, []) if y["k"] == "step" and y["i"] <= i]
 
-    for item in _parse_tuple_lines(rt.out):
-        m = re.match(r'<<"PROP", <<"(C\d+)", "(\w+)">>, (\d+), (\d+)>>', item)
-        if m:
-            pid, name, h, i = m.group(1), m.group(2), int(m.group(3)), int(m.group(4))
-            if name == "ExpireExact":
-                x = [y for y in recs if y["k"] == "expire" and y["h"] == h][0]
-                n = len([y for y in steps if y["h"] == h])
-                res["fail"].append({"prop": pid, "pred": name, "h": h, "i": n, "data": "ExpireSessions probe", "cmd": "", "t": "expire",
-                                    "server": False, "det": "", "snap": "", "snapat": 0, "lines": "",
-                                    "panics": "ages (id, rid, age-expiration s) %s proposed %s" % (x["ages"], x["expire"]),
-                                    "program": history_upto(h, n)})
-                continue
-            x = byhi_snap[(h, i)] if name.startswith("RoundTrip") and (h, i) in byhi_snap else byhi[(h, i)]
-            res["fail"].append({"prop": pid, "pred": name, "h": h, "i": i, "data": x["e"].get("data", ""),
-                                "cmd": x["e"].get("cmd", ""), "t": x["e"]["t"], "server": bool(x["e"].get("haspfx")),
-                                "det": x.get("det", ""), "snap": x.get("snap", ""), "snapat": x.get("snapat", 0),
-                                "lines": x.get("lines", ""), "panics": x.get("panics", ""), "view": x.get("view", ""), "rids": x.get("rids", ""),
-                                "program": history_upto(h, i)})
+    def rec_of(h, i, kind):
+        for y in got.get(h, []):
+            if y["k"] == kind and y["i"] == i:
+                return y
+        return None
+
+    for pid, name, h, i in kept:
+        if name == "ExpireExact":
+            x = [y for y in got.get(h, []) if y["k"] == "expire"][0]
+            n = len([y for y in got.get(h, []) if y["k"] == "step"])
+            res["fail"].append({"prop": pid, "pred": name, "h": h, "i": n, "data": "ExpireSessions probe", "cmd": "", "t": "expire",
+                                "server": False, "det": "", "snap": "", "snapat": 0, "lines": "",
+                                "panics": "ages (id, rid, age-expiration s) %s proposed %s" % (x["ages"], x["expire"]),
+                                "program": history_upto(h, n)})
             continue
-        m = re.match(r'<<"CONF", "([\w-]+)", (\d+), (\d+)(.*)>>$', item, re.S)
-        if m:
-            h, i = int(m.group(2)), int(m.group(3))
-            x = byhi[(h, i)]
-            res["conf"].append({"kind": m.group(1), "h": h, "i": i, "data": x["e"].get("data", ""),
-                                "detail": m.group(4)[:600], "real_out": x["out"][:6]})
-            continue
-        m = re.match(r'<<"CONFORMING", (\d+)>>', item)
-        if m:
-            res["conforming"] += int(m.group(1))
-    for x in steps[:3] + steps[len(steps) // 2:len(steps) // 2 + 2]:
-        res["samples"].append({"entry": {k2: x["e"][k2] for k2 in ("t", "id", "sess", "ts", "data")},
-                               "out": [{"cmd": o["cmd"], "to": o["to"], "p": o["p"]} for o in x["out"][:3]],
-                               "post_nicks": x["post"]["nk"]})
+        x = (rec_of(h, i, "snap") if name.startswith("RoundTrip") else None) or rec_of(h, i, "step")
+        if x is None:
+            raise vlib.Inconclusive("cannot find record %s/%s of a reported failure" % (h, i))
+        res["fail"].append({"prop": pid, "pred": name, "h": h, "i": i, "data": x["e"].get("data", ""),
+                            "cmd": x["e"].get("cmd", ""), "t": x["e"]["t"], "server": bool(x["e"].get("haspfx")),
+                            "det": x.get("det", ""), "snap": x.get("snap", ""), "snapat": x.get("snapat", 0),
+                            "lines": x.get("lines", ""), "panics": x.get("panics", ""), "view": x.get("view", ""), "rids": x.get("rids", ""),
+                            "program": history_upto(h, i)})
+    res["failures_reported_by_tlc"] = len(props)
+    for kind, h, i, detail in confs[:50]:
+        x = rec_of(h, i, "step")
+        res["conf"].append({"kind": kind, "h": h, "i": i, "data": x["e"].get("data", "") if x else "?",
+                            "detail": detail, "real_out": x["out"][:6] if x else []})
+    res["conf_total"] = len(confs)
     res["mc_counterexample"] = bool(mc_counterexample)
     return res
 
@@ -486,8 +555,8 @@ def report(ctx, pid, extra_note=None):
     for c in res["conf"][:10]:
         ctx.drift("IRC.tla Step differs from the code (%s) at history %d entry %d: %r %s" % (
             c["kind"], c["h"], c["i"], c["data"][:60], c["detail"][:200]))
-    if len(res["conf"]) > 10:
-        ctx.drift("... %d more conformance differences" % (len(res["conf"]) - 10))
+    if res.get("conf_total", len(res["conf"])) > 10:
+        ctx.drift("... %d more conformance differences" % (res.get("conf_total", len(res["conf"])) - 10))
     mc = res["tlc"]["mc"]
     if res.get("mc_counterexample"):
         ctx.note("IRCMC design model reports %s (candidate; judged only by the real-code trace)" % mc.get("bad"))
@@ -504,7 +573,7 @@ def report(ctx, pid, extra_note=None):
     ctx.cov["tlc_runs"] = res["tlc"]
     ctx.cov["commands_exercised"] = res["cmds"]
     ctx.cov["engine_cached"] = res["cached"]
-    ctx.cov["predicate_failures_all_properties"] = len(res["fail"])
+    ctx.cov["predicate_failures_all_properties"] = res.get("failures_reported_by_tlc", len(res["fail"]))
     for s in res["samples"]:
         ctx.sample(s)
     ctx.assumptions += [
